@@ -420,7 +420,9 @@ def expected(s0, op):
         m_attach_last(s, t, ('t', p))
         return [s], ANY
     if k == 'children=':
-        _, holder, L, _form = op
+        holder, L, _form = op[1], op[2], op[3]
+        if _form == 'view':
+            L = list(_hl(s, tuple(op[4])))        # a live children/roots view of another (or the same) holder is the value
         L = [x for x in L if x is not None]
         outs = []
         for LL in ([uniq_first(L)] if uniq_first(L) == uniq_last(L) else [uniq_first(L), uniq_last(L)]):
@@ -429,12 +431,9 @@ def expected(s0, op):
             outs.append(a)
         return outs, ANY
     if k == 'append':
+        # "append puts the task last" -- also for a task that already is a child of that list
         _, holder, x = op
         holder = tuple(holder)
-        if x in _hl(s, holder):
-            a = copy.deepcopy(s)
-            m_attach_last(a, x, holder)
-            return [s, a], ANY
         m_attach_last(s, x, holder)
         return [s], ANY
     if k == 'floordiv':
@@ -536,7 +535,9 @@ def expected(s0, op):
                 m_release(s, x)
         return [s], ('labels', matching)
     if k in ('preds=', 'succs='):
-        _, t, L, _form = op
+        t, L, _form = op[1], op[2], op[3]
+        if _form == 'view':
+            L = list(s['T'][op[4][1]][op[4][0]])   # a live predecessors/successors view of some task is the value
         m_set_links(s, t, [x for x in L if x is not None], 'preds' if k == 'preds=' else 'succs')
         return [s], ANY
     if k in ('preds.append', 'succs.append'):
@@ -683,8 +684,8 @@ def _execute(u, op):
         u.T(op[1]).parent = u.T(op[2])
         return None
     if k == 'children=':
-        _, holder, L, form = op
-        val = _seq(u, L, form)
+        holder, L, form = op[1], op[2], op[3]
+        val = facade(u, op[4]) if form == 'view' else _seq(u, L, form)
         if holder[0] == 't':
             u.T(holder[1]).children = val
         else:
@@ -719,11 +720,16 @@ def _execute(u, op):
         a, kw = _flt_args(u, op[2])
         r = u.wobj[op[1]].remove_all(*a, **kw)
         return [u.L(t) for t in r]
-    if k == 'preds=':
-        u.T(op[1]).predecessors = _seq(u, op[2], op[3])
-        return None
-    if k == 'succs=':
-        u.T(op[1]).successors = _seq(u, op[2], op[3])
+    if k in ('preds=', 'succs='):
+        if op[3] == 'view':
+            src = u.T(op[4][1])
+            val = src.predecessors if op[4][0] == 'preds' else src.successors
+        else:
+            val = _seq(u, op[2], op[3])
+        if k == 'preds=':
+            u.T(op[1]).predecessors = val
+        else:
+            u.T(op[1]).successors = val
         return None
     if k == 'preds.append':
         return u.T(op[1]).predecessors.append(u.T(op[2]))
